@@ -392,3 +392,7 @@ M('seed-C14-rename-before-close', ['C14'], RL, "                    f.write(json
 M('seek-ignores-offset', ['C14'], RL, "                        else:\n                            read_file.seek(seek_pos)", "                        else:\n                            read_file.seek(0)", ['C14.R5'])
 M('seek-newer-or-equal', ['C14'], RL, "                if logfile.timestamp > seek_timestamp:\n                    break", "                if logfile.timestamp >= seek_timestamp:\n                    break", ['C14.R5'])
 M('tell-end-of-current', ['C14'], RL, "            return (os.path.basename(logfiles[read_idx].path), 0 if read_file is None else\n                read_file.tell() if file_pos else None)", "            return (os.path.basename(logfiles[read_idx].path), logfiles[read_idx].size if read_file is None else\n                read_file.tell() if file_pos else None)", ['C14.R6'])
+M('seed-C03-got_all-truthiness', ['C01', 'C03'], Z, "return (recvd := self.recvd) is not None and all(v is not None for v in recvd.values())", "return bool(recvd := self.recvd) and all(v is not None for v in recvd.values())", ['C01.R4', 'C03.R8'])
+M('seed-C06-reset-before-reregister', ['C06'], Z, "                                    if s.got_all:\n                                        poller.register(s.sub, zmq.POLLIN)  # regerister because was unregistered if got_all, sender itself is known to be registered since we just got a message from it\n\n                                    s.new_recv()", "                                    s.new_recv()\n\n                                    if s.got_all:\n                                        poller.register(s.sub, zmq.POLLIN)", ['C06.R2'])
+M('seed-C16-unanchored-regex', ['C16'], BR, "        for pattern in self._allow:\n            if fnmatch.fnmatch(metric_name, pattern):\n                return True", "        import re\n        rx = re.compile('|'.join('(?:' + re.escape(p).replace('\\\\*', '.*') + ')' for p in self._allow))\n        if rx.match(metric_name):\n            return True", ['C16.R2'])
+M('seed-C17-skip-guard-transposed', ['C17'], UT, "        if w != frame.width or h != frame.height:", "        if (w, h) != frame.shape[:2]:", ['C17.R1'])
